@@ -331,7 +331,7 @@ def cli_ledger_jobs(prop, tier, rnd):
                 sched = [[1970 if k == 0 else y + k, rnd.choice(METHODS)] for k in range(2 + i % 3)]
             else:
                 method = METHODS[(i // 3) % 4]
-        shape = {"C09": ["to", "none"], "C10": ["from", "fromto", "to"], "C06": ["to", "none", "from"], "C07": ["to", "none"]}.get(prop, ["none", "none", "to"])[i % (2 if prop in ("C09", "C07") else 3)]
+        shape = {"C09": ["to", "none"], "C10": ["from", "fromto", "to"], "C06": ["to", "none", "from"], "C07": ["to", "none"]}.get(prop, ["none", "to", "from", "none", "fromto"])[i % {"C09": 2, "C07": 2, "C10": 3, "C06": 3}.get(prop, 5)]
         if country == "jp" and shape == "fromto":
             shape = "from"
         job = make_job(assets, country, rnd, shape=shape, lang="en" if country == "jp" else None, method=method, sched=sched)
